@@ -4,7 +4,7 @@ import FoxModel.Spec.History
 /-
   FoxModel.Driver.Hist — line-protocol handlers of the streams `chist` and `conc` (property C05).
 
-    chist \t <call>;<call>;…        a recorded concurrent history, re-checked by the Lean `checkHistory`
+    chist \t <call>;<call>;…        a recorded concurrent history, decided by the Lean `checkLinFast` (= `checkLin`, exact: Fox.C05.checker_as_run_exact)
       call = <obj>,<tid>,<call stamp>,<ret stamp>,<kind>,<ver>,<payload>,<result>
         kind W  committed write transaction   payload = script  op/op/…   (H:m:hexpat:hid  U:m:hexpat:hid  D:m:hexpat)
                                               result  = per-operation results  ok | exist | notfound | conflict | ok:<hid>
@@ -115,7 +115,8 @@ def handleHist (fields : List String) : String :=
     let objs := objects cs
     let bad := objs.filterMap fun o =>
       let h := (cs.filter (·.1 == o)).map (·.2)
-      if checkHistory sem h then none else some (o ++ ":" ++ explain sem h)
+      if !wellStamped h then some (o ++ ":malformed history: a call returns before it is called")
+      else if checkLinFast sem h then none else some (o ++ ":" ++ explainLin sem h)
     let (ow, rc) := overlapStats ((cs.filter (·.1 == objs.headD "")).map (·.2))
     let tags := (if ow then ["chist-overlapping-writers"] else []) ++ (if rc then ["chist-read-overlaps-commit"] else [])
     (match bad with
